@@ -14,7 +14,7 @@ package server
 //
 // Alphabet (51 events):
 //   lsp:<circuit>:<A|own>:<seq>:<lifetime>   A: seq 1..3; own: seq relative to the
-//                                           sequence number after set-up {-1,+0,+2}; lifetime {2,1200}
+//                                           sequence number after set-up {-1,+0,+2} (own sub-alphabet also +5); lifetime {2,1200}
 //   csnp:<circuit>:<A entry>:<B entry>       entries subset of {A:1,A:2,A:3} (at most one) x {B:1}, full range
 //   psnp:<circuit>:<seq>                     one entry A:seq
 //   tick | own-update | send-lsp | send-psnp | send-csnp
@@ -77,7 +77,11 @@ func zvC32Alphabet(universe string) []string {
 			}
 		}
 		if universe != "A" {
-			for _, rel := range []string{"-1", "+0", "+2"} {
+			rels := []string{"-1", "+0", "+2"}
+			if universe == "own" {
+				rels = append(rels, "+5") // two different newer copies: they can arrive in descending order before the re-origination
+			}
+			for _, rel := range rels {
 				for _, life := range []int{2, 1200} {
 					a = append(a, fmt.Sprintf("lsp:%s:own:%s:%d", c, rel, life))
 				}
@@ -709,9 +713,9 @@ func TestVerifC32(t *testing.T) {
 		dFull, dA, dOwn = 4, 5, 6
 	}
 	full := zvC32Alphabet("full")
-	r.Rule(fmt.Sprintf("explicit-state BFS over histories of received LSPs/CSNPs/PSNPs (LSP IDs A, B, own; sequence numbers 1..3 resp. own-1/own/own+2; lifetimes 2/1200) on two circuits, aging ticks, own-LSP updates and LSP/PSNP/CSNP send rounds: "+
+	r.Rule(fmt.Sprintf("explicit-state BFS over histories of received LSPs/CSNPs/PSNPs (LSP IDs A, B, own; sequence numbers 1..3 resp. own-1/own/own+2 (own sub-alphabet also own+5); lifetimes 2/1200) on two circuits, aging ticks, own-LSP updates and LSP/PSNP/CSNP send rounds: "+
 		"full alphabet (%d events) to depth %d, sub-alphabets 'A' (%d events, foreign LSP only) to depth %d and 'own' (%d events, own LSP only) to depth %d; each history replayed on a fresh real Server (bound 0) in lock-step with the ISO 10589 reference; "+
-		"plus a 3600 s linear aging run from 2 roots; non-trivial = distinct canonical states", len(full), dFull, len(zvC32Alphabet("A")), dA, len(zvC32Alphabet("own")), dOwn))
+		"plus a 3600 s linear aging run from 2 roots; plus every schedule (<= 2 preemptions, thorough 3) of the receiver goroutines and the own-LSP updater for two (three) copies of the own LSP queued at once; non-trivial = distinct canonical states", len(full), dFull, len(zvC32Alphabet("A")), dA, len(zvC32Alphabet("own")), dOwn))
 	r.Require(zvC32Required...)
 	r.Extra("depth_full", dFull)
 	r.Extra("depth_sub_A", dA)
@@ -729,6 +733,15 @@ func TestVerifC32(t *testing.T) {
 		}
 	}
 	if r.IsReplay() {
+		var cc zvC32ConcCase
+		r.ReplayCase(&cc)
+		if cc.Conc {
+			zvC32ConcRun(r, cc, append([]int{}, cc.Schedule...))
+			for _, k := range zvC32Required {
+				r.Count(k, 1)
+			}
+			return
+		}
 		var c zvC32Case
 		r.ReplayCase(&c)
 		if c.Universe == "aging" {
@@ -830,4 +843,5 @@ func TestVerifC32(t *testing.T) {
 		}
 		r.Count("aging_refreshes", n)
 	}
+	zvC32Concurrent(r, idx)
 }
